@@ -32,6 +32,12 @@ def make_cases(tier, rng):
         cases[-1]["hold"] = {"gate": gate, "side": "", "ms": rng.choice([150, 300, 400])}
     for tls, launch in ([("auto", "cmd"), ("", "runner")] if tier == "quick" else [("auto", "cmd"), ("", "runner"), ("auto", "runner")] * 3):
         add("process", [g.est(rng, keep=True) for _ in range(5)], "tls-or-runner", tls=tls, launch=launch)
+    # two ids on one dialling broker whose waits overlap: one dial sits out most of its window (its accept comes late)
+    # while another id, accepted early, is dialled meanwhile -- dials of different ids must not wait for each other
+    for pair in (["inproc", "process"] if tier == "quick" else ["inproc", "process"] * 3):
+        for d in ["h2p", "p2h"]:
+            ests = [g.est(rng, d, "accept_first", gap=rng.choice([2500, 3000]), start=0), g.est(rng, d, "dial_first", gap=4500, start=700)]
+            add(pair, ests, "overlapping-dials")
     # unmatched peers followed by fresh pairs (the gRPC half of C09)
     for _ in range(1 if tier == "quick" else 6):
         ests = [g.est(rng, nopeer="dial_only"), g.est(rng, nopeer="accept_only"), g.est(rng, start=200), g.est(rng, start=5600)]
